@@ -227,7 +227,9 @@ def _check_interval(ctx, spec, seg, t0, t1, size, iv):
               'length(%r,%r)=%r for %r (true length in [%r,%r])' % (t0, t1, got, spec, lo, hi))
     tol = 5e-3 if singular else 1e-6
     # absolute floor: the library's documented default absolute error request (LENGTH_ERROR = 1e-12) and rounding
-    slack = 1e-10 + 256 * EPS * size
+    # (the pure-Python fallback adds up to thousands of chords between evaluated points, each carrying the rounding of a point
+    # evaluation, ~eps x coordinates: on a 1e-9 parameter interval of a curve of size 6600 it returned 7.7e-10 for a true 4e-15)
+    slack = 1e-10 + (8192 if ctx.config == 'noscipy' else 256) * EPS * size
     ctx.check(got >= -256 * EPS * size, 'negative/%s' % kind, 'length(%r,%r)=%r' % (t0, t1, got))
     ctx.check(lo * (1 - tol) - slack <= got <= hi * (1 + tol) + slack, 'outside_bracket/%s%s' % (kind, '/singular' if singular else ''),
               'length(%r,%r)=%r outside the bracket [%r, %r] (Gauss-Legendre %r)' % (t0, t1, got, lo, hi, gl))
